@@ -1,6 +1,7 @@
 \* C20 negative config: Content-Length not updated after the rewrite: TLC must reject LengthMatchesBody.
 CONSTANTS
   UnsupportedRule = "pass"
+  CspRule = "policylist"
   LengthRule = "forget"
   EmitCases = FALSE
 INIT Init
